@@ -94,8 +94,33 @@ def check(run):
     procs = gen_procs(rng, run.tier)
     oc_js = run.consts["output"]
 
+    # socket output whose path has exactly the longest length the output accepts (PATH_SIZE) and one byte less: the datagram must arrive
+    # at that very path.  The run directory is known here, so the file name is padded to the exact total length.
+    psz = int(run.consts["output"].get("sock_path_size") or 0)
+    n_exact = 0
+    for L in (psz, psz - 1):
+        if psz >= 60:
+            procs.append({"out": "socket", "arg": b"@EXACT%d@" % L, "fac": "USER", "lvl": "INFO", "ident": b"snoopy", "chain": None, "llog": 1000,
+                          "calls": [("execve", b"/bin/x", [b"msg-%d" % L, b"y"])] * 2, "el": False, "fmt": b"%{cmdline}", "exact_len": L})
+            n_exact += 1
+
+    def exact_path(i, L):
+        d = os.path.join(run.scratch, "sys-c04-%d" % i)
+        base = d + "/"
+        return (base + "s" * (L - len(base) - 5) + ".sock").encode() if L - len(base) - 5 >= 1 else None
+
     def job(i):
         p = procs[i]
+        if p.get("exact_len"):
+            ep = exact_path(i, p["exact_len"])
+            if ep is None:
+                return (i, [], {"status": 0, "stderr": "", "records": [], "skipped": True})
+            p = dict(p, arg=ep)
+            procs[i] = p
+            script = list(SINKS) + ["sink\tdgram\tsockx\t" + ep.decode(), "ini\t" + hexs(ini_of(p)), "env\t" + hexlist([b"PATH=/bin"])]
+            for (api, path, argv) in p["calls"]:
+                script.append(call_line(api, path, argv, [] if api == "execve" else None, 0, -1, 2))
+            return (i, script, run_script(run, lib, script, "c04-%d" % i, timeout=120))
         # some processes run with descriptor 0 closed: the output's own open()/socket() then returns 0
         script = (["minpid\t10000"] if p["out"] == "devlog" else []) + list(SINKS) + (["stdin\tclosed"] if p.get("stdin_closed") else []) + ["ini\t" + hexs(ini_of(p)), "env\t" + hexlist([b"PATH=/bin"])]
         for (api, path, argv) in p["calls"]:
@@ -146,6 +171,8 @@ def check(run):
     for n, (i, k) in enumerate(pred_idx):
         p = procs[i]
         script, r = res_by_proc[i]
+        if r.get("skipped"):
+            continue
         if r["status"] != 0:
             run.violation("caller-died", "crash", "caller ended with status %s (output %s): %s" % (r["status"], p["out"], r["stderr"][-300:]),
                           {"failing_input": {"config": ini_of(p).decode(errors="replace"), "call_index": k}, "script": script})
@@ -157,6 +184,8 @@ def check(run):
             tag, name, data = f[2 + 3 * j], f[3 + 3 * j], f[4 + 3 * j]
             nm = bytes.fromhex(name) if name != "-" else b""
             key = sinkmap.get((tag, nm), "?")
+            if key == "?" and p.get("exact_len") and tag == "2" and nm == p["arg"]:
+                key = "sockx"
             if key is None:
                 continue          # /dev/null: unobservable by construction; "nothing anywhere else" is still checked
             expected.setdefault(key, []).append(data if data != "-" else "")
